@@ -153,6 +153,8 @@ Direct(h) == IF h.ty = "inv" /\ HasChild(h, "c")
              ELSE <<>>
 Invitations(h) == Mediated(h) \o Direct(h)
 OfKind(sq, kd) == SelectSeq(sq, LAMBDA x : x.kind = kd)
+(* (an Invitation without a name IS a mediated one: "the default is mediated", muc/invites.go) *)
+MedNorm(sq) == [i \in 1..Len(sq) |-> [sq[i] EXCEPT !.ns = IF @ = "none" THEN "user" ELSE @]]
 CountIn(x, sq) == Cardinality({i \in 1..Len(sq) : sq[i] = x})
 SameBag(a, b) == /\ Len(a) = Len(b)
                  /\ \A i \in 1..Len(a) : CountIn(a[i], a) = CountIn(a[i], b)
@@ -174,7 +176,7 @@ OHandled(d) ==
      /\ owed' = owed \cup {c \in h.after : /\ Pending(c) /\ c \notin dirty
                                              /\ Decisive(h, c)
                                              /\ (kind[c] = "leave" => memAt[c] = "in")}
-     /\ viol' = viol \cup (IF SameBag(OfKind(cbs, "med"), Mediated(h)) THEN {} ELSE {"C18_InviteExactlyOnce"})
+     /\ viol' = viol \cup (IF SameBag(MedNorm(OfKind(cbs, "med")), Mediated(h)) THEN {} ELSE {"C18_InviteExactlyOnce"})
                      \cup (IF SameBag(OfKind(cbs, "dir"), Direct(h)) /\ Len(OfKind(cbs, "med")) + Len(OfKind(cbs, "dir")) = Len(cbs)
                            THEN {} ELSE {"C18_DirectInviteExactlyOnce"})
                      \cup (IF h.room \notin has /\ h.ty \in {"av", "un"} /\ ups > 0 THEN {"C18_ForeignIgnored"} ELSE {})
